@@ -87,37 +87,32 @@ def O2 (cfg : Cfg) (ob : Obj) (call : Call) (s : Disk) : Obj :=
 inductive Exit24 (cfg : Cfg) (ob : Obj) (call : Call) (s : Disk) : Disk × Obj × Result → Prop
   | alreadyExists : alreadyExists24 cfg.n call.overwrite s = true →
       Exit24 cfg ob call s (S1 cfg call s, O1 cfg ob call s, .ret 0)
-  | crash : readCrashes ob = true → alreadyExists24 cfg.n call.overwrite s = false →
-      Exit24 cfg ob call s (S1 cfg call s, O1 cfg ob call s, .raised .crash)
-  | atSplit : readCrashes ob = false → alreadyExists24 cfg.n call.overwrite s = false →
+  | atSplit : alreadyExists24 cfg.n call.overwrite s = false →
       stopAt call.interrupt Point.splitIdx (2 * nproc cfg) < 2 * nproc cfg →
       Exit24 cfg ob call s (S2 cfg call s (stopAt call.interrupt Point.splitIdx (2 * nproc cfg)), O1 cfg ob call s, .raised .injected)
-  | atMeta : readCrashes ob = false → alreadyExists24 cfg.n call.overwrite s = false →
+  | atMeta : alreadyExists24 cfg.n call.overwrite s = false →
       stopAt call.interrupt Point.metaIdx (2 * cfg.n) < 2 * cfg.n →
       Exit24 cfg ob call s (S3 cfg call s (stopAt call.interrupt Point.metaIdx (2 * cfg.n)), O1 cfg ob call s, .raised .injected)
-  | atVerify : readCrashes ob = false → alreadyExists24 cfg.n call.overwrite s = false →
+  | atVerify : alreadyExists24 cfg.n call.overwrite s = false →
       ob.opts.postCheck = true →
       stopAt call.interrupt Point.verifyIdx (verifyReads cfg call) < verifyReads cfg call →
       Exit24 cfg ob call s (S3 cfg call s (2 * cfg.n), O1 cfg ob call s, .raised .injected)
-  | verifyFails : readCrashes ob = false → alreadyExists24 cfg.n call.overwrite s = false →
+  | verifyFails : alreadyExists24 cfg.n call.overwrite s = false →
       ob.opts.postCheck = true → splitDiffers cfg call = true →
       Exit24 cfg ob call s (S3 cfg call s (2 * cfg.n), O1 cfg ob call s, .raised .assertion)
-  | atCompress : readCrashes ob = false → alreadyExists24 cfg.n call.overwrite s = false →
+  | atCompress : alreadyExists24 cfg.n call.overwrite s = false →
       (ob.opts.postCheck = true → splitDiffers cfg call = false) → ob.opts.compress = true →
       stopAt call.interrupt Point.compressIdx (2 * cfg.n) < 2 * cfg.n →
       Exit24 cfg ob call s (S4 cfg ob call s (stopAt call.interrupt Point.compressIdx (2 * cfg.n)), O2 cfg ob call s, .raised .injected)
-  | atDelete : readCrashes ob = false → alreadyExists24 cfg.n call.overwrite s = false →
+  | atDelete : alreadyExists24 cfg.n call.overwrite s = false →
       (ob.opts.postCheck = true → splitDiffers cfg call = false) → ob.opts.deleteOriginal = true →
       call.interrupt = some .delete →
       Exit24 cfg ob call s (S4 cfg ob call s (2 * cfg.n), O2 cfg ob call s, .raised .injected)
-  | deleteMissing : readCrashes ob = false → alreadyExists24 cfg.n call.overwrite s = false →
-      ob.srClosed = true →
-      Exit24 cfg ob call s (S4 cfg ob call s (2 * cfg.n), O2 cfg ob call s, .raised .fileNotFound)
-  | deleted : readCrashes ob = false → alreadyExists24 cfg.n call.overwrite s = false →
+  | deleted : alreadyExists24 cfg.n call.overwrite s = false →
       (ob.checkCompleted || ob.opts.postCheck) = true → (ob.opts.postCheck = true → splitDiffers cfg call = false) →
-      ob.opts.deleteOriginal = true → ob.srClosed = false →
-      Exit24 cfg ob call s ({ S4 cfg ob call s (2 * cfg.n) with orig := .absent }, { O2 cfg ob call s with srClosed := true }, .ret 1)
-  | kept : readCrashes ob = false → alreadyExists24 cfg.n call.overwrite s = false →
+      ob.opts.deleteOriginal = true →
+      Exit24 cfg ob call s ({ S4 cfg ob call s (2 * cfg.n) with orig := .absent }, O2 cfg ob call s, .ret 1)
+  | kept : alreadyExists24 cfg.n call.overwrite s = false →
       (ob.opts.postCheck = true → splitDiffers cfg call = false) →
       ((ob.checkCompleted || ob.opts.postCheck) = false ∨ ob.opts.deleteOriginal = false) →
       Exit24 cfg ob call s (S4 cfg ob call s (2 * cfg.n), O2 cfg ob call s, .ret 1)
@@ -127,39 +122,35 @@ theorem process24_exit (cfg : Cfg) (ob : Obj) (call : Call) (s : Disk) : Exit24 
   case true =>
     have : process24 cfg ob call s = (S1 cfg call s, O1 cfg ob call s, .ret 0) := by simp [process24, h1, S1, O1]
     rw [this]; exact .alreadyExists h1
-  cases h0 : readCrashes ob
-  case true =>
-    have : process24 cfg ob call s = (S1 cfg call s, O1 cfg ob call s, .raised .crash) := by simp [process24, h1, h0, S1, O1]
-    rw [this]; exact .crash h0 h1
   rcases Nat.lt_or_ge (stopAt call.interrupt Point.splitIdx (2 * nproc cfg)) (2 * nproc cfg) with h2 | h2
   · have : process24 cfg ob call s = (S2 cfg call s (stopAt call.interrupt Point.splitIdx (2 * nproc cfg)), O1 cfg ob call s, .raised .injected) := by
-      simp [process24, h0, h1, h2, S1, S2, O1]
-    rw [this]; exact .atSplit h0 h1 h2
+      simp [process24, h1, h2, S1, S2, O1]
+    rw [this]; exact .atSplit h1 h2
   have e2 : stopAt call.interrupt Point.splitIdx (2 * nproc cfg) = 2 * nproc cfg := by
     have := stopAt_le call.interrupt Point.splitIdx (2 * nproc cfg); omega
   rcases Nat.lt_or_ge (stopAt call.interrupt Point.metaIdx (2 * cfg.n)) (2 * cfg.n) with h3 | h3
   · have : process24 cfg ob call s = (S3 cfg call s (stopAt call.interrupt Point.metaIdx (2 * cfg.n)), O1 cfg ob call s, .raised .injected) := by
-      simp [process24, h0, h1, h3, S1, S2, S3, e2, O1]
-    rw [this]; exact .atMeta h0 h1 h3
+      simp [process24, h1, h3, S1, S2, S3, e2, O1]
+    rw [this]; exact .atMeta h1 h3
   have e3 : stopAt call.interrupt Point.metaIdx (2 * cfg.n) = 2 * cfg.n := by
     have := stopAt_le call.interrupt Point.metaIdx (2 * cfg.n); omega
   cases hv : (ob.opts.postCheck && decide (stopAt call.interrupt Point.verifyIdx (verifyReads cfg call) < verifyReads cfg call))
   case true =>
     have : process24 cfg ob call s = (S3 cfg call s (2 * cfg.n), O1 cfg ob call s, .raised .injected) := by
-      simp only [process24, h0, h1, S1, S2, S3, e2, e3, hv, O1]; simp
-    rw [this]; simp at hv; exact .atVerify h0 h1 hv.1 hv.2
+      simp only [process24, h1, S1, S2, S3, e2, e3, hv, O1]; simp
+    rw [this]; simp at hv; exact .atVerify h1 hv.1 hv.2
   cases hd : (ob.opts.postCheck && splitDiffers cfg call)
   case true =>
     have : process24 cfg ob call s = (S3 cfg call s (2 * cfg.n), O1 cfg ob call s, .raised .assertion) := by
-      simp only [process24, h0, h1, S1, S2, S3, e2, e3, hv, hd, O1]; simp
-    rw [this]; simp at hd; exact .verifyFails h0 h1 hd.1 hd.2
+      simp only [process24, h1, S1, S2, S3, e2, e3, hv, hd, O1]; simp
+    rw [this]; simp at hd; exact .verifyFails h1 hd.1 hd.2
   have hchk : ob.opts.postCheck = true → splitDiffers cfg call = false := by
     intro h; simpa [h] using hd
   cases hc : (ob.opts.compress && decide (stopAt call.interrupt Point.compressIdx (2 * cfg.n) < 2 * cfg.n))
   case true =>
     have : process24 cfg ob call s = (S4 cfg ob call s (stopAt call.interrupt Point.compressIdx (2 * cfg.n)), O2 cfg ob call s, .raised .injected) := by
-      simp only [process24, h0, h1, S1, S2, S3, S4, e2, e3, hv, hd, hc, O1, O2]; simp
-    rw [this]; simp at hc; exact .atCompress h0 h1 hchk hc.1 hc.2
+      simp only [process24, h1, S1, S2, S3, S4, e2, e3, hv, hd, hc, O1, O2]; simp
+    rw [this]; simp at hc; exact .atCompress h1 hchk hc.1 hc.2
   have e4 : (if ob.opts.compress = true then compress24 cfg call (stopAt call.interrupt Point.compressIdx (2 * cfg.n)) (S3 cfg call s (2 * cfg.n))
       else S3 cfg call s (2 * cfg.n)) = S4 cfg ob call s (2 * cfg.n) := by
     unfold S4
@@ -173,23 +164,20 @@ theorem process24_exit (cfg : Cfg) (ob : Obj) (call : Call) (s : Disk) : Exit24 
       (if ob.opts.deleteOriginal = true then
         if call.interrupt = some .delete then (S4 cfg ob call s (2 * cfg.n), O2 cfg ob call s, .raised .injected) else
         if ((ob.checkCompleted || ob.opts.postCheck) && ob.opts.deleteOriginal) = true then
-          if ob.srClosed = true then (S4 cfg ob call s (2 * cfg.n), O2 cfg ob call s, .raised .fileNotFound)
-          else ({ S4 cfg ob call s (2 * cfg.n) with orig := .absent }, { O2 cfg ob call s with srClosed := true }, .ret 1)
+          ({ S4 cfg ob call s (2 * cfg.n) with orig := .absent }, O2 cfg ob call s, .ret 1)
         else (S4 cfg ob call s (2 * cfg.n), O2 cfg ob call s, .ret 1)
       else (S4 cfg ob call s (2 * cfg.n), O2 cfg ob call s, .ret 1)) := by
-    simp only [process24, h0, h1, e2, e3, hv, hd, hc]
+    simp only [process24, h1, e2, e3, hv, hd, hc]
     simp only [S1, S2, S3] at e4
     simp [e4, O1, O2, h1]
   rw [base]
   cases hdel : ob.opts.deleteOriginal
-  · simp; exact .kept h0 h1 hchk (Or.inr hdel)
+  · simp; exact .kept h1 hchk (Or.inr hdel)
   by_cases hint : call.interrupt = some .delete
-  · simp [hint]; exact .atDelete h0 h1 hchk hdel hint
+  · simp [hint]; exact .atDelete h1 hchk hdel hint
   cases hcc : (ob.checkCompleted || ob.opts.postCheck)
-  · simp [hint]; exact .kept h0 h1 hchk (Or.inl hcc)
-  · cases hcl : ob.srClosed
-    · simp [hint]; exact .deleted h0 h1 hcc hchk hdel hcl
-    · simp [hint]; exact .deleteMissing h0 h1 hcl
+  · simp [hint]; exact .kept h1 hchk (Or.inl hcc)
+  · simp [hint]; exact .deleted h1 hcc hchk hdel
 
 @[simp] theorem origReadable_S1 (cfg call s) : origReadable (S1 cfg call s) = origReadable s := rfl
 @[simp] theorem origReadable_S2 (cfg call s j) : origReadable (S2 cfg call s j) = origReadable s := rfl
@@ -251,32 +239,29 @@ def FlagOk (ob : Obj) : Prop := ob.checkCompleted = true → ob.opts.postCheck =
 
 /-- the original is untouched by `_process_NP24` except in the `deleted` exit, which needs a passed verification -/
 theorem process24_orig (cfg : Cfg) (ob : Obj) (call : Call) (s : Disk) (hf : FlagOk ob) :
-    ((process24 cfg ob call s).1.orig = s.orig ∧ (process24 cfg ob call s).1.och = s.och ∧
-      (process24 cfg ob call s).2.1.srClosed = ob.srClosed) ∨
-    (ob.opts.postCheck = true ∧ ob.opts.deleteOriginal = true ∧ splitDiffers cfg call = false ∧ ob.srClosed = false ∧
+    ((process24 cfg ob call s).1.orig = s.orig ∧ (process24 cfg ob call s).1.och = s.och) ∨
+    (ob.opts.postCheck = true ∧ ob.opts.deleteOriginal = true ∧ splitDiffers cfg call = false ∧
       (process24 cfg ob call s).2.2 = .ret 1 ∧ (process24 cfg ob call s).1.orig = .absent ∧
-      (process24 cfg ob call s).2.1.srClosed = true ∧
       ∀ i, i < cfg.n → ∃ sh, (process24 cfg ob call s).1.shanks i = some sh ∧
         FilesComplete ob.opts.compress (.good cfg.c) sh.ap ∧ FilesComplete ob.opts.compress (.good cfg.c) sh.lf) := by
   have e := process24_exit cfg ob call s
   generalize process24 cfg ob call s = r at e
   cases e with
-  | deleted _ _ hcc hchk hdel hcl =>
+  | deleted _ hcc hchk hdel =>
     right
     have hpc : ob.opts.postCheck = true := by
       cases h : ob.checkCompleted
       · simpa [h] using hcc
       · exact hf h
-    exact ⟨hpc, hdel, hchk hpc, hcl, rfl, rfl, rfl, fun i hi => S4_shank_complete_good cfg ob call s (hchk hpc) i hi⟩
-  | _ => left; refine ⟨by simp, ?_, rfl⟩ <;> first | rfl | (simp only [S4]; split <;> rfl)
+    exact ⟨hpc, hdel, hchk hpc, rfl, rfl, fun i hi => S4_shank_complete_good cfg ob call s (hchk hpc) i hi⟩
+  | _ => left; refine ⟨by simp, ?_⟩ <;> first | rfl | (simp only [S4]; split <;> rfl)
 
 theorem process24_flagOk (cfg : Cfg) (ob : Obj) (call : Call) (s : Disk) (hf : FlagOk ob) :
     FlagOk (process24 cfg ob call s).2.1 ∧ (process24 cfg ob call s).2.1.opts = ob.opts ∧
-    (process24 cfg ob call s).2.1.onShank = ob.onShank ∧ (process24 cfg ob call s).2.1.srForm = ob.srForm ∧
-    (process24 cfg ob call s).2.1.srSorted = ob.srSorted := by
+    (process24 cfg ob call s).2.1.onShank = ob.onShank ∧ (process24 cfg ob call s).2.1.srForm = ob.srForm := by
   have e := process24_exit cfg ob call s
   generalize process24 cfg ob call s = r at e
-  cases e <;> refine ⟨?_, rfl, rfl, rfl, rfl⟩ <;> intro h <;>
+  cases e <;> refine ⟨?_, rfl, rfl, rfl⟩ <;> intro h <;>
     first
     | exact hf h
     | (simp only [O2, O1, Bool.or_eq_true] at h; rcases h with h | h; exact hf h; exact h)
@@ -306,19 +291,17 @@ theorem process24_creates_output (cfg : Cfg) (ob : Obj) (call : Call) (s : Disk)
   generalize process24 cfg ob call s = r at ex
   cases ex with
   | alreadyExists => exact S1_isSome cfg call s i hi
-  | crash => exact S1_isSome cfg call s i hi
   | atSplit => exact S2_isSome cfg call s _ i hi
   | atMeta => exact S3_isSome cfg call s _ i hi
   | atVerify => exact S3_isSome cfg call s _ i hi
   | verifyFails => exact S3_isSome cfg call s _ i hi
   | atCompress => exact S4_isSome cfg ob call s _ i hi
   | atDelete => exact S4_isSome cfg ob call s _ i hi
-  | deleteMissing => exact S4_isSome cfg ob call s _ i hi
   | deleted => exact S4_isSome cfg ob call s _ i hi
   | kept => exact S4_isSome cfg ob call s _ i hi
 
-/-- an uninterrupted faithful NP2.4 run of an object with a live reader that passes the existence test ends complete -/
-theorem process24_completes (cfg : Cfg) (ob : Obj) (call : Call) (s : Disk) (hcl : ob.srClosed = false)
+/-- an uninterrupted faithful NP2.4 run that passes the existence test ends complete -/
+theorem process24_completes (cfg : Cfg) (ob : Obj) (call : Call) (s : Disk)
     (hae : alreadyExists24 cfg.n call.overwrite s = false) (hf : NoFault cfg call) :
     (process24 cfg ob call s).2.2 = .ret 1 ∧
     (∀ i, i < cfg.n → ∃ sh, (process24 cfg ob call s).1.shanks i = some sh ∧
@@ -329,18 +312,15 @@ theorem process24_completes (cfg : Cfg) (ob : Obj) (call : Call) (s : Disk) (hcl
   generalize process24 cfg ob call s = r at ex
   have hd : splitDiffers cfg call = false := (splitDiffers_false_iff cfg call).mpr hf.2
   have hi := hf.1
-  have hrc : readCrashes ob = false := by simp [readCrashes, hcl]
   cases ex with
   | alreadyExists h => simp [h] at hae
-  | crash h => simp [h] at hrc
-  | atSplit _ _ h => simp [hi] at h
-  | atMeta _ _ h => simp [hi] at h
-  | atVerify _ _ _ h => simp [hi] at h
-  | verifyFails _ _ _ h => simp [hd] at h
-  | atCompress _ _ _ _ h => simp [hi] at h
-  | atDelete _ _ _ _ h => simp [hi] at h
-  | deleteMissing _ _ h => simp [hcl] at h
-  | deleted _ _ hcc _ hdel =>
+  | atSplit _ h => simp [hi] at h
+  | atMeta _ h => simp [hi] at h
+  | atVerify _ _ h => simp [hi] at h
+  | verifyFails _ _ h => simp [hd] at h
+  | atCompress _ _ _ h => simp [hi] at h
+  | atDelete _ _ _ h => simp [hi] at h
+  | deleted _ hcc _ hdel =>
     exact ⟨rfl, fun i hi => S4_shank_complete_good cfg ob call s hd i hi, Or.inr ⟨hcc, hdel⟩⟩
   | kept =>
     refine ⟨rfl, fun i hi => S4_shank_complete_good cfg ob call s hd i hi, Or.inl ⟨by simp, ?_⟩⟩
@@ -348,7 +328,7 @@ theorem process24_completes (cfg : Cfg) (ob : Obj) (call : Call) (s : Disk) (hcl
 
 /-- NP2.1: disk after `j` `_split2shanks` calls (the lf file was opened by `_prepare_files_NP21`) -/
 def T2 (cfg : Cfg) (ob : Obj) (s : Disk) (j : Nat) : Disk :=
-  { s with lf := { s.lf with bin := written (nproc cfg) j (lfData cfg ob) (!ob.srSorted || j == 0) } }
+  { s with lf := { s.lf with bin := written (nproc cfg) j (.good cfg.c) true } }
 /-- … after all windows and `m` `write_meta_data` calls -/
 def T3 (cfg : Cfg) (ob : Obj) (s : Disk) (m : Nat) : Disk :=
   { T2 cfg ob s (nproc cfg) with lf := { (T2 cfg ob s (nproc cfg)).lf with md := (T2 cfg ob s (nproc cfg)).lf.md || decide (0 < m) } }
@@ -360,12 +340,12 @@ def T5 (cfg : Cfg) (ob : Obj) (call : Call) (s : Disk) (q : Nat) : Disk :=
     if ob.srForm = .bin then
       if 0 < q then { T3 cfg ob s 1 with orig := .cbin, och := true, otmp := false } else { T3 cfg ob s 1 with otmp := true }
     else T3 cfg ob s 1
-  { s4 with lf := compressFileSet call.overwrite (lfData cfg ob) (ncall21 ob - 1) q s4.lf }
+  { s4 with lf := compressFileSet call.overwrite (.good cfg.c) (ncall21 ob - 1) q s4.lf }
 /-- the object after `_prepare_files_NP21` -/
 def P1 (ob : Obj) (call : Call) (s : Disk) : Obj := { ob with alreadyExists := lfExists s && !call.overwrite }
-/-- … after `compress_NP21` with `q` completed calls: the reader follows the compressed original (re-opened sorted) -/
+/-- … after `compress_NP21` with `q` completed calls: the reader follows the compressed original -/
 def P2 (ob : Obj) (call : Call) (s : Disk) (q : Nat) : Obj :=
-  if ob.srForm = .bin ∧ 0 < q then { P1 ob call s with srForm := .cbin, srSorted := true } else P1 ob call s
+  if ob.srForm = .bin ∧ 0 < q then { P1 ob call s with srForm := .cbin } else P1 ob call s
 
 /-- The ways `_process_NP21` of the object `ob` ends. -/
 inductive Exit21 (cfg : Cfg) (ob : Obj) (call : Call) (s : Disk) : Disk × Obj × Result → Prop
@@ -453,7 +433,7 @@ theorem process21_shanks (cfg : Cfg) (ob : Obj) (call : Call) (s : Disk) : (proc
 /-- what `_process_NP21` does to the object: only `already_exists`, and the reader following the compressed original -/
 theorem process21_obj (cfg : Cfg) (ob : Obj) (call : Call) (s : Disk) :
     (process21 cfg ob call s).2.1.opts = ob.opts ∧ (process21 cfg ob call s).2.1.onShank = ob.onShank ∧
-    (process21 cfg ob call s).2.1.checkCompleted = ob.checkCompleted ∧ (process21 cfg ob call s).2.1.srClosed = ob.srClosed ∧
+    (process21 cfg ob call s).2.1.checkCompleted = ob.checkCompleted ∧
     (ob.srForm = s.orig → (process21 cfg ob call s).2.1.srForm = (process21 cfg ob call s).1.orig) := by
   have ex := process21_exit cfg ob call s
   generalize process21 cfg ob call s = r at ex
@@ -463,7 +443,7 @@ theorem process21_obj (cfg : Cfg) (ob : Obj) (call : Call) (s : Disk) :
       simp [P2, P1, T5, T3, T2, hb, hq] <;> intro h <;> simp_all
   | compressed =>
     by_cases hb : ob.srForm = .bin <;> simp [P2, P1, T5, T3, T2, hb, ncall21] <;> intro h <;> simp_all
-  | _ => exact ⟨rfl, rfl, rfl, rfl, fun h => h⟩
+  | _ => exact ⟨rfl, rfl, rfl, fun h => h⟩
 
 theorem process21_rerun_noop (cfg : Cfg) (ob : Obj) (call : Call) (s : Disk)
     (he : s.lf.bin ≠ .absent ∨ s.lf.cbin.isSome = true) (hw : call.overwrite = false) :
@@ -504,7 +484,7 @@ theorem process21_creates_output (cfg : Cfg) (ob : Obj) (call : Call) (s : Disk)
     split <;> (try split) <;> exact written_ne_absent _ _ _ _
 
 theorem process21_completes (cfg : Cfg) (ob : Obj) (call : Call) (s : Disk) (h0 : OrigHolds s)
-    (hlink : ob.srForm = s.orig) (hsort : ob.srSorted = false)
+    (hlink : ob.srForm = s.orig)
     (hae : lfExists s = false ∨ call.overwrite = true) (hi : call.interrupt = none) :
     (process21 cfg ob call s).2.2 = .ret 1 ∧
     FilesComplete ob.opts.compress (.good cfg.c) (process21 cfg ob call s).1.lf ∧
@@ -519,11 +499,11 @@ theorem process21_completes (cfg : Cfg) (ob : Obj) (call : Call) (s : Disk) (h0 
   | atCompress _ _ h => simp [hi] at h
   | plain _ hc =>
     refine ⟨rfl, ?_, by simp [hc]⟩
-    simp [hc, FilesComplete, T3, T2, written, lfData, hsort]
+    simp [hc, FilesComplete, T3, T2, written]
   | compressed _ hc =>
     refine ⟨rfl, ?_, ?_⟩
     · by_cases hb : ob.srForm = .bin <;>
-        simp [hc, T5, ncall21, hb, FilesComplete, T3, T2, written, compressFileSet, lfData, hsort]
+        simp [hc, T5, ncall21, hb, FilesComplete, T3, T2, written, compressFileSet]
     · intro _
       rcases origReadable_cases h0' with hb | ⟨hb, hcb, hch⟩
       · simp [T5, ncall21, hlink, hb, T3, T2]
@@ -579,8 +559,8 @@ theorem run_noacting (cfg : Cfg) (call : Call) (st : St) (h : actingObj cfg call
     rw [h]; exact ⟨rfl, ⟨_, rfl⟩, h⟩
 
 theorem construct_ok (cfg : Cfg) (call : Call) (s : Disk) (ob : Obj) (h : construct cfg call s = .ok ob) :
-    ob.opts = call.opts ∧ ob.onShank = call.onShank ∧ ob.checkCompleted = false ∧ ob.srClosed = false ∧
-    ob.srSorted = false ∧ (ob.onShank = false → origReadable s = true ∧ ob.srForm = s.orig) ∧
+    ob.opts = call.opts ∧ ob.onShank = call.onShank ∧ ob.checkCompleted = false ∧
+    (ob.onShank = false → origReadable s = true ∧ ob.srForm = s.orig) ∧
     (ob.onShank = true → cfg.kind = .np24 ∧ targetComplete s = true) := by
   unfold construct at h
   cases hs : call.onShank
@@ -603,49 +583,66 @@ theorem acting_fresh (cfg : Cfg) (call : Call) (st : St) (ob : Obj) (hr : call.r
   | error e => simp [hc, Except.toOption] at h
   | ok o => simp [hc, Except.toOption] at h; subst h; rfl
 
+theorem origReadable_ne_absent {s : Disk} (h : origReadable s = true) : s.orig ≠ .absent := by
+  intro ha; simp [origReadable, ha] at h
+
 /-- the acting object is consistent with the disk -/
-theorem acting_objOk (cfg : Cfg) (call : Call) (st : St) (ob : Obj) (hs : StOk cfg st)
-    (h : actingObj cfg call st = some ob) : ObjOk cfg st.disk ob := by
+theorem acting_objOk (cfg : Cfg) (call : Call) (st : St) (ob : Obj) (hs : StOk st)
+    (h : actingObj cfg call st = some ob) : ObjOk st.disk ob := by
   cases hr : call.reuse
-  · obtain ⟨_, _, hcc, hcl, _, hlink, _⟩ := construct_ok cfg call st.disk ob (acting_fresh cfg call st ob hr h)
-    exact ⟨by simp [hcc], fun ho _ => (hlink ho).2, by simp [hcl]⟩
+  · obtain ⟨_, _, hcc, hlink, _⟩ := construct_ok cfg call st.disk ob (acting_fresh cfg call st ob hr h)
+    refine ⟨by simp [hcc], fun ho _ => ⟨(hlink ho).2, (hlink ho).1⟩, fun ho => ?_⟩
+    rw [(hlink ho).2]; exact origReadable_ne_absent (hlink ho).1
   · unfold actingObj at h; simp only [hr, if_true] at h; exact hs ob h
 
-theorem processObj_onShank (cfg ob call s) (h : ob.onShank = true) : processObj cfg ob call s = (s, ob, .ret 0) := by
+/-- `process` on an object whose file is gone: status 0, nothing happens -/
+theorem processObj_missing (cfg ob call s) (h : apFileExists ob s = false) : processObj cfg ob call s = (s, ob, .ret 0) := by
   simp [processObj, h]
-theorem processObj_np24 (cfg : Cfg) (ob call s) (h : ob.onShank = false) (hk : cfg.kind = .np24) :
-    processObj cfg ob call s = process24 cfg ob call s := by simp [processObj, h, hk]
-theorem processObj_np21 (cfg : Cfg) (ob call s) (h : ob.onShank = false) (hk : cfg.kind = .np21) :
-    processObj cfg ob call s = process21 cfg ob call s := by simp [processObj, h, hk]
-theorem processObj_np1 (cfg : Cfg) (ob call s) (h : ob.onShank = false) (hk : cfg.kind = .np1) :
-    processObj cfg ob call s = (s, ob, .ret (-1)) := by simp [processObj, h, hk]
+theorem processObj_onShank (cfg ob call s) (h : ob.onShank = true) : processObj cfg ob call s = (s, ob, .ret 0) := by
+  simp [processObj, h, apFileExists]
+theorem processObj_np24 (cfg : Cfg) (ob call s) (h : ob.onShank = false) (hk : cfg.kind = .np24)
+    (he : apFileExists ob s = true) : processObj cfg ob call s = process24 cfg ob call s := by simp [processObj, h, hk, he]
+theorem processObj_np21 (cfg : Cfg) (ob call s) (h : ob.onShank = false) (hk : cfg.kind = .np21)
+    (he : apFileExists ob s = true) : processObj cfg ob call s = process21 cfg ob call s := by simp [processObj, h, hk, he]
+theorem processObj_np1 (cfg : Cfg) (ob call s) (h : ob.onShank = false) (hk : cfg.kind = .np1)
+    (he : apFileExists ob s = true) : processObj cfg ob call s = (s, ob, .ret (-1)) := by simp [processObj, h, hk, he]
+
+/-- an object built on the original finds its file exactly when the original is still there -/
+theorem apFileExists_iff (s : Disk) (ob : Obj) (hok : ObjOk s ob) (ho : ob.onShank = false) :
+    apFileExists ob s = true ↔ s.orig ≠ .absent := by
+  simp only [apFileExists, ho, Bool.false_or, beq_iff_eq]
+  constructor
+  · intro h ha; exact hok.2.2 ho (h ▸ ha)
+  · intro h; exact ((hok.2.1 ho h).1).symm
+
+theorem apFileExists_of_holds (s : Disk) (ob : Obj) (hok : ObjOk s ob) (ho : ob.onShank = false) (h : OrigHolds s) :
+    apFileExists ob s = true := (apFileExists_iff s ob hok ho).mpr (origReadable_ne_absent h)
 
 /-- consistency of the object with the disk is preserved by `process` -/
-theorem processObj_objOk (cfg : Cfg) (ob : Obj) (call : Call) (s : Disk) (h : ObjOk cfg s ob) :
-    ObjOk cfg (processObj cfg ob call s).1 (processObj cfg ob call s).2.1 := by
+theorem processObj_objOk (cfg : Cfg) (ob : Obj) (call : Call) (s : Disk) (h : ObjOk s ob) :
+    ObjOk (processObj cfg ob call s).1 (processObj cfg ob call s).2.1 := by
+  cases he : apFileExists ob s
+  case false => rw [processObj_missing cfg ob call s he]; exact h
   cases ho : ob.onShank
   case true => rw [processObj_onShank cfg ob call s ho]; exact h
+  have hne : s.orig ≠ .absent := (apFileExists_iff s ob h ho).mp he
+  obtain ⟨h1, h2, h3⟩ := h
+  obtain ⟨hl, hr⟩ := h2 ho hne
   cases hk : cfg.kind
-  · rw [processObj_np24 cfg ob call s ho hk]
-    obtain ⟨h1, h2, h3⟩ := h
-    obtain ⟨f1, f2, f3, f4, f5⟩ := process24_flagOk cfg ob call s h1
-    rcases process24_orig cfg ob call s h1 with ⟨a, b, c⟩ | ⟨_, _, _, _, _, a, c, _⟩
-    · refine ⟨f1, fun _ hc => ?_, fun hc => ?_⟩
-      · rw [f4, a]; rw [c] at hc; exact h2 ho hc
-      · rw [c] at hc; rw [a, f3]; exact ⟨hk, ho, (h3 hc).2.2⟩
-    · refine ⟨f1, fun _ hc => ?_, fun _ => ?_⟩
-      · rw [c] at hc; cases hc
-      · rw [f3]; exact ⟨hk, ho, a⟩
-  · rw [processObj_np21 cfg ob call s ho hk]
-    obtain ⟨h1, h2, h3⟩ := h
-    obtain ⟨p1, p2, p3, p4, p5⟩ := process21_obj cfg ob call s
-    refine ⟨fun hc => ?_, fun _ hc => ?_, fun hc => ?_⟩
+  · rw [processObj_np24 cfg ob call s ho hk he]
+    obtain ⟨f1, f2, f3, f4⟩ := process24_flagOk cfg ob call s h1
+    rcases process24_orig cfg ob call s h1 with ⟨a, b⟩ | ⟨_, _, _, _, a, _⟩
+    · refine ⟨f1, fun _ _ => ⟨by rw [f4, a]; exact hl, (by unfold origReadable at hr ⊢; rw [a, b]; exact hr)⟩, fun _ => by rw [f4]; exact h3 ho⟩
+    · refine ⟨f1, fun _ hc => absurd a hc, fun _ => by rw [f4]; exact h3 ho⟩
+  · rw [processObj_np21 cfg ob call s ho hk he]
+    obtain ⟨p1, p2, p3, p5⟩ := process21_obj cfg ob call s
+    have hk' := process21_keeps cfg ob call s hr
+    refine ⟨fun hc => ?_, fun _ _ => ⟨p5 hl, hk'⟩, fun _ => ?_⟩
     · rw [p1]; rw [p3] at hc; exact h1 hc
-    · rw [p4] at hc; exact p5 (h2 ho hc)
-    · rw [p4] at hc; have := (h3 hc).1; rw [hk] at this; cases this
-  · rw [processObj_np1 cfg ob call s ho hk]; exact h
+    · rw [p5 hl]; exact origReadable_ne_absent hk'
+  · rw [processObj_np1 cfg ob call s ho hk he]; exact ⟨h1, h2, h3⟩
 
-theorem run_stOk (cfg : Cfg) (call : Call) (st : St) (hs : StOk cfg st) : StOk cfg (run cfg call st).1 := by
+theorem run_stOk (cfg : Cfg) (call : Call) (st : St) (hs : StOk st) : StOk (run cfg call st).1 := by
   cases ha : actingObj cfg call st with
   | none =>
     obtain ⟨_, _, h3⟩ := run_noacting cfg call st ha
@@ -660,53 +657,40 @@ theorem run_stOk (cfg : Cfg) (call : Call) (st : St) (hs : StOk cfg st) : StOk c
 theorem origHolds_of_eq {s s' : Disk} (h : OrigHolds s) (ho : s'.orig = s.orig) (hc : s'.och = s.och) : OrigHolds s' := by
   unfold OrigHolds origReadable at *; rw [ho, hc]; exact h
 
-theorem run_recoverable (cfg : Cfg) (hn : 0 < cfg.n) (call : Call) (st : St) (hs : StOk cfg st)
-    (h : Recoverable cfg st.disk) (hx : ¬ Excluded call st) : Recoverable cfg (run cfg call st).1.disk := by
+theorem run_recoverable (cfg : Cfg) (hn : 0 < cfg.n) (call : Call) (st : St) (hs : StOk st)
+    (h : Recoverable cfg st.disk) : Recoverable cfg (run cfg call st).1.disk := by
   cases ha : actingObj cfg call st with
   | none => rw [(run_noacting cfg call st ha).1]; exact h
   | some ob =>
     rw [run_acting cfg call st ob ha]
     have hok := acting_objOk cfg call st ob hs ha
     show Recoverable cfg (processObj cfg ob call st.disk).1
+    cases he : apFileExists ob st.disk
+    case false => rw [processObj_missing cfg ob call _ he]; exact h
     cases ho : ob.onShank
     case true => rw [processObj_onShank cfg ob call _ ho]; exact h
+    have hoh : OrigHolds st.disk := (hok.2.1 ho ((apFileExists_iff _ ob hok ho).mp he)).2
     cases hk : cfg.kind
-    · rw [processObj_np24 cfg ob call _ ho hk]
-      by_cases hoh : OrigHolds st.disk
-      · rcases process24_orig cfg ob call st.disk hok.1 with ⟨a, b, _⟩ | ⟨_, _, _, _, _, _, _, e⟩
-        · exact Or.inl (origHolds_of_eq hoh a b)
-        · right
-          refine ⟨hk, hn, fun i hi => ?_⟩
-          obtain ⟨sh, a, b, _⟩ := e i hi
-          exact ⟨sh, a, b.holds.1, b.holds.2⟩
-      · rcases h with h | ⟨_, _, hsh⟩
-        · exact absurd h hoh
-        · have hw : call.overwrite = false := by
-            cases hr : call.reuse
-            · have := (construct_ok cfg call st.disk ob (acting_fresh cfg call st ob hr ha)).2.2.2.2.2.1 ho
-              exact absurd this.1 hoh
-            · cases hw : call.overwrite
-              · rfl
-              · exact absurd ⟨hr, hw, hoh⟩ hx
-          have he : ∀ i, i < cfg.n → (st.disk.shanks i).isSome = true := by
-            intro i hi; obtain ⟨sh, e, _⟩ := hsh i hi; simp [e]
-          rw [(process24_rerun_noop cfg ob call st.disk hn he hw).1]
-          exact Or.inr ⟨hk, hn, hsh⟩
-    · rw [processObj_np21 cfg ob call _ ho hk]
-      rcases h with h | ⟨h, _⟩
-      · exact Or.inl (process21_keeps cfg ob call _ h)
-      · rw [hk] at h; cases h
-    · rw [processObj_np1 cfg ob call _ ho hk]; exact h
+    · rw [processObj_np24 cfg ob call _ ho hk he]
+      rcases process24_orig cfg ob call st.disk hok.1 with ⟨a, b⟩ | ⟨_, _, _, _, _, e⟩
+      · exact Or.inl (origHolds_of_eq hoh a b)
+      · right
+        refine ⟨hk, hn, fun i hi => ?_⟩
+        obtain ⟨sh, a, b, _⟩ := e i hi
+        exact ⟨sh, a, b.holds.1, b.holds.2⟩
+    · rw [processObj_np21 cfg ob call _ ho hk he]
+      exact Or.inl (process21_keeps cfg ob call _ hoh)
+    · rw [processObj_np1 cfg ob call _ ho hk he]; exact h
 
 theorem runs_recoverable (cfg : Cfg) (hn : 0 < cfg.n) (calls : List Call) :
-    ∀ st, StOk cfg st → Recoverable cfg st.disk → Allowed cfg st calls → Recoverable cfg (runs cfg st calls).disk := by
+    ∀ st, StOk st → Recoverable cfg st.disk → Recoverable cfg (runs cfg st calls).disk := by
   induction calls with
-  | nil => intro st _ h _; exact h
+  | nil => intro st _ h; exact h
   | cons c cs ih =>
-    intro st hs h ha
-    exact ih _ (run_stOk cfg c st hs) (run_recoverable cfg hn c st hs h ha.1) ha.2
+    intro st hs h
+    exact ih _ (run_stOk cfg c st hs) (run_recoverable cfg hn c st hs h)
 
-theorem runs_stOk (cfg : Cfg) (calls : List Call) : ∀ st, StOk cfg st → StOk cfg (runs cfg st calls) := by
+theorem runs_stOk (cfg : Cfg) (calls : List Call) : ∀ st, StOk st → StOk (runs cfg st calls) := by
   induction calls with
   | nil => intro st h; exact h
   | cons c cs ih => intro st hs; exact ih _ (run_stOk cfg c st hs)
